@@ -97,7 +97,9 @@ def script(ctx, cfg, model, cookies):
         s = st[i]
         f_id = fid(fe, fsp, fdp)
         act = rng.random()
-        if act < 0.15 or (not s["syn"] and act < 0.5):
+        if not s["syn"] and rng.random() < 0.4:
+            act = 0.0       # flows without a SYN-ACK so far are probed more often - but still see every other kind of segment
+        if act < 0.15:
             # probe SYN: learn the cookie at the boundary
             r = ctx.send(fe.tcp(fsp, fdp, (s["seq"] - 1) & 0xFFFFFFFF, 0, SYN))
             a = pkt.parse(r.reply) if r.kind == "R" else {}
